@@ -77,6 +77,10 @@ def tasks(tier, seed):
         for op in ("set3d", "iadd"):
             for arg in ("ok", "int_dtype", "wrong_yx", "wrong_dims", "no_coords", "array2d"):
                 out.append({"fn": "photon3d", "kwargs": {"pre": pre, "op": op, "arg": arg}, "label": f"photon3d/{op}/{pre}/{arg}"})
+        # 2-D assignments (valid and invalid) onto a container that may hold a multi-wavelength cube
+        for op in ("set2d", "set2d_alias", "update"):
+            for arg in ("array2d", "array2d_int", "array2d_wrong_shape", "array1d", "array3d_plain"):
+                out.append({"fn": "photon3d", "kwargs": {"pre": pre, "op": op, "arg": arg}, "label": f"photon3d/{op}/{pre}/{arg}"})
     return out
 
 
@@ -226,6 +230,14 @@ def photon3d(pre, op, arg):
             snap = content.copy()
         if arg == "array2d":
             value = sym_array("arg", SHAPE)
+        elif arg == "array2d_int":
+            value = sym_array("arg", SHAPE, kind="int", dtype="int64")
+        elif arg == "array2d_wrong_shape":
+            value = sym_array("arg", (3, 2))
+        elif arg == "array1d":
+            value = sym_array("arg", (SHAPE[1],))
+        elif arg == "array3d_plain":
+            value = sym_array("arg", (nw,) + SHAPE)
         else:
             shape = (nw,) + (SHAPE if arg != "wrong_yx" else (3, 2))
             data = sym_array("arg", shape, kind="int" if arg == "int_dtype" else "real", dtype="int64" if arg == "int_dtype" else float)
@@ -237,6 +249,12 @@ def photon3d(pre, op, arg):
         try:
             if op == "set3d":
                 c.array_3d = value
+            elif op == "set2d":
+                c.array = value
+            elif op == "set2d_alias":
+                c.array_2d = value
+            elif op == "update":
+                c.update(value)
             else:
                 c += value
         except Exception as e:  # noqa: BLE001
@@ -415,6 +433,70 @@ def replay(oid, kwargs, model, data):
         if "reject_keeps_content" in oid:
             same = (a is None) if snap is None else (a is not None and a.shape == SHAPE and a.dtype == snap.dtype and np.array_equal(a, snap))
             return (not same), det
+        return False, det
+    if fn == "photon3d":
+        import xarray as xr
+
+        pre, op, arg = kwargs["pre"], kwargs["op"], kwargs["arg"]
+        nw = 2
+        c = _types("photon")(_geo())
+        snap = None
+        if pre == "full3d":
+            snap = np.abs(_cval(model, "pre", float, (nw,) + SHAPE, 1))
+            c._array = xr.DataArray(snap.copy(), dims=("wavelength", "y", "x"), coords={"wavelength": [500.0, 600.0]})
+        elif pre == "full2d":
+            snap = np.abs(_cval(model, "pre", float, SHAPE, 1))
+            c._array = snap.copy()
+        if arg == "array2d":
+            value = _cval(model, "arg", float, SHAPE, 1)
+        elif arg == "array2d_int":
+            value = _cval(model, "arg", "int64", SHAPE, 1)
+        elif arg == "array2d_wrong_shape":
+            value = _cval(model, "arg", float, (3, 2), 1)
+        elif arg == "array1d":
+            value = _cval(model, "arg", float, (SHAPE[1],), 1)
+        elif arg == "array3d_plain":
+            value = _cval(model, "arg", float, (nw,) + SHAPE, 1)
+        else:
+            shape = (nw,) + (SHAPE if arg != "wrong_yx" else (3, 2))
+            dat = _cval(model, "arg", "int64" if arg == "int_dtype" else float, shape, 1)
+            dims = ("wavelength", "y", "x")
+            if arg == "wrong_dims":
+                dat, dims = _cval(model, "arg2", float, SHAPE + (nw,), 1), ("y", "x", "wavelength")
+            value = xr.DataArray(dat, dims=dims, coords={} if arg == "no_coords" else {"wavelength": [500.0, 600.0]})
+        raised = None
+        try:
+            if op == "set3d":
+                c.array_3d = value
+            elif op == "set2d":
+                c.array = value
+            elif op == "set2d_alias":
+                c.array_2d = value
+            elif op == "update":
+                c.update(value)
+            else:
+                c += value
+        except Exception as e:  # noqa: BLE001
+            raised = e
+        a = c._array
+        if a is None:
+            valid = True
+        elif isinstance(a, xr.DataArray):
+            valid = a.dims == ("wavelength", "y", "x") and tuple(a.shape[1:]) == SHAPE and a.dtype.kind == "f" and "wavelength" in a.coords
+        else:
+            valid = isinstance(a, np.ndarray) and a.shape == SHAPE and a.dtype.kind == "f"
+        det = {"raised": repr(raised), "stored": None if a is None else type(a).__name__ + str(list(a.shape))}
+        if raised is None:
+            if "invariant" in oid:
+                return (not valid), det
+            if "assign_nonnegative" in oid:
+                return (not valid) or bool((np.asarray(a) < 0).any()), det
+            return False, det
+        if "reject_keeps_content" in oid:
+            same = (a is None) if snap is None else (a is not None and tuple(a.shape) == tuple(snap.shape) and np.array_equal(np.asarray(a), snap))
+            return (not same), det
+        if "valid_operation_accepted" in oid:
+            return True, det
         return False, det
     if fn == "photon_ieee":
         from pyxel.detectors import CCDGeometry
